@@ -808,11 +808,15 @@ def gen_fs_packfiles(ctx):
     return out
 
 
+def build_fs_harness(ctx):
+    lib = ctx.build_lib()
+    return ctx.cc("h_c16_fs", ["h_c16_fs.c"], libs=[str(lib)] + vlib.CODEC_LIBS)
+
+
 def check_fs(ctx, pair, stats):
     """`Sqfs.QuoteFs.buildFromFile` against fstree_from_file_stream on the real lib/fstree; on the real describe output of
     generated trees also against the specification `normTree` (the right-hand side of rebuild_fstree_partial)"""
-    lib = ctx.build_lib()
-    pfs = Pair(ctx, ctx.cc("h_c16_fs", ["h_c16_fs.c"], libs=[str(lib)] + vlib.CODEC_LIBS))
+    pfs = Pair(ctx, build_fs_harness(ctx))
     rng = ctx.rng
 
     def defaults():
@@ -1246,6 +1250,23 @@ def replay(ctx, path):
     rp = body.get("replay", {})
     ok, _ = ctx.lean_build(["sqfsmodel"])
     pair = Pair(ctx, build_harness(ctx))
+    if "op" in rp and rp["op"].startswith("fsbuild "):
+        pfs = Pair(ctx, build_fs_harness(ctx))
+        impl, crash = pfs.impl([rp["op"]])
+        model = pair.model([rp["op"]])
+        print("op      :", rp["op"][:2000]); print("impl    :", [x[:3000] for x in impl], crash); print("model   :", model[0][:3000])
+        if "expected" in rp:
+            # the in-memory tree gensquashfs builds from a describe output against the specification recorded with it
+            if "tree" in rp:
+                d = pair.impl([rp["tree"]])[0]
+                print("describe:", [x[:2000] for x in d], "(recorded listing %s)" % ("reproduced" if d and d[0][3:] == rp["op"].split(" ")[-1] else "differs now"))
+                if d and d[0].startswith("ok "):
+                    op2 = " ".join(rp["op"].split(" ")[:-1] + [d[0][3:]])
+                    impl, crash = pfs.impl([op2])
+                    print("impl on the present listing:", [x[:3000] for x in impl], crash)
+            print("expected:", rp["expected"][:3000])
+            return 1 if crash or not impl or impl[0] != rp["expected"] else 0
+        return 1 if crash or not impl or impl[0] != model[0] else 0
     if "comps" in rp:
         c = Case.from_dict(rp)
         impl, crash = pair.impl(["desc x " + c.args()])
